@@ -24,7 +24,7 @@ REQUIRED_CLAUSES = [
     "one-sample-per-request", "service-time-is-wire-span", "processing>=service>=0", "processing-time-is-request-span", "not-before-scheduled",
     "throttled-latency-from-schedule", "unthrottled-latency-is-service-time", "sample-identity", "sample-issue-time",
 ]
-REQUIRED_FEATURES = {"throttled": 20, "unthrottled": 20, "behind-schedule": 5, "client-overhead": 10, "multi-wire": 10, "err-http": 3, "err-timeout": 3, "svc-slow": 5, "clock-offset": 10}
+REQUIRED_FEATURES = {"throttled": 20, "unthrottled": 20, "behind-schedule": 5, "client-overhead": 10, "multi-wire": 10, "err-http": 3, "err-timeout": 3, "svc-slow": 5, "clock-offset": 10, "race": 10, "race:several-clock-origins": 5, "race:several-wall-clocks": 2}
 BUDGET = {"quick": {"cases": 6000, "seconds": 40}, "thorough": {"cases": 150000, "seconds": 600}}
 EPS = 1e-9
 
@@ -33,11 +33,13 @@ def close(a, b):
     return abs(a - b) <= EPS * max(1.0, abs(a), abs(b)) + 1e-9
 
 
-def check(ctx, case, h, exc, problems, feats):
+def check(ctx, case, h, exc, problems, feats, off_of=None, epoch_of=None):
+    """`h` needs .sim.log, .rec and .clock. off_of(client) / epoch_of(client): perf_counter origin and wall-clock origin of the process /
+    host the client runs in (constants for the executor harness, per worker / per host in simulated races)."""
     log = {r["id"]: r for r in h.sim.log}
     rec = h.rec
-    off = case["pc_offset"]
-    epoch = h.clock.epoch
+    off_of = off_of or (lambda client: case["pc_offset"])
+    epoch_of = epoch_of or (lambda client: h.clock.epoch)
     # group logical requests and samples per (client, task)
     logical = {}
     for e in rec.logical:
@@ -54,6 +56,7 @@ def check(ctx, case, h, exc, problems, feats):
             continue
         sched = rec.schedule.get(key, [])
         start = rec.start_info[key]["vt_total_start"]
+        off, epoch = off_of(key[0]), epoch_of(key[0])
         for i, (e, s) in enumerate(zip(done, got)):
             # the i-th executed request corresponds to the tuple with the same ordinal
             tup = sched[e["ordinal"]] if e["ordinal"] < len(sched) else None
@@ -132,10 +135,58 @@ def one_case(ctx, rng, explicit=None):
     return problems
 
 
+def race_case(ctx, rng, explicit=None):
+    """The same monitor on complete simulated races: every worker is its own process with its own perf_counter origin, every load
+    driver host has its own wall clock, tasks run step by step under actor-message timing (engines.race)."""
+    import time as _t
+
+    from engines import race
+    from props import c01
+
+    case = explicit or c01.gen_case(rng)
+    if explicit is None:
+        for el in case["elements"]:
+            el.pop("clients_cap", None)  # over-commit would run a (client, task) pair twice; the join below is per (client, task)
+            for t in el["tasks"]:
+                if "time_period" in t:
+                    t["time_period"] = min(t["time_period"], 30)
+                if "iterations" in t:
+                    t["iterations"] = min(t["iterations"], 20)
+        case["clock_offsets"] = True
+    tr = race.run_race(dict(case, wall_deadline=_t.monotonic() + max(15.0, ctx.time_left() + 10.0)), ctx.scratch, instrument=c01.instrument)
+    feats = {"race"}
+    if tr.budget or tr.exit_status != "SUCCESSFUL":
+        ctx.feature("race-not-usable")
+        ctx.case(["race", case], False, ())
+        return
+    origin, wall = {}, {}
+    for r in tr.kernel.recs.values():
+        if r.cls is not None and r.cls.__name__ == "Worker" and r.inst is not None and r.inst.worker_id is not None:
+            for c in tr.workers.get(r.inst.worker_id, []):
+                origin[c] = r.proc_offset
+                wall[c] = tr.kernel.clock.epoch + r.system.wall_skew
+
+    class H:
+        sim, rec, clock = tr.sim, tr.rec, tr.kernel.clock
+
+    problems = []
+    check(ctx, case, H, None, problems, feats, off_of=lambda c: origin.get(c, 0.0), epoch_of=lambda c: wall.get(c, tr.kernel.clock.epoch))
+    if len(set(origin.values())) > 1:
+        feats.add("race:several-clock-origins")
+    if len(set(wall.values())) > 1:
+        feats.add("race:several-wall-clocks")
+    ctx.case(["race", case], len(tr.rec.logical) >= 2, feats)
+    for clause, msg, detail in problems[:2]:
+        ctx.violation(clause, {"workload": "race", "case": case}, "[simulated race] " + msg)
+
+
 def run_shard(ctx):
     i = 0
     while ctx.more():
-        one_case(ctx, ctx.case_rng(i))
+        if i % 60 == 30:
+            race_case(ctx, ctx.case_rng(i))
+        else:
+            one_case(ctx, ctx.case_rng(i))
         i += 1
 
 
@@ -144,7 +195,10 @@ def classify(v):
 
 
 def replay(ctx, rec):
-    one_case(ctx, None, explicit=rec["witness"]["case"])
+    if rec["witness"].get("workload") == "race":
+        race_case(ctx, None, explicit=rec["witness"]["case"])
+    else:
+        one_case(ctx, None, explicit=rec["witness"]["case"])
 
 
 MANIFEST = {
